@@ -364,6 +364,7 @@ fn clean_item(it: &mut syn::Item, derive_keep: &[String], subst: &BTreeMap<Strin
 // ---- function transformation
 
 struct Rules {
+    split_find: bool,
     split_map_collect: Option<String>,
     cloned_collect_fn: Option<String>,
     enumerate_fn: Option<String>,
@@ -423,6 +424,43 @@ impl<'a> VisitMut for RuleVisitor<'a> {
 
     fn visit_expr_mut(&mut self, e: &mut Expr) {
         visit_mut::visit_expr_mut(self, e);
+        if self.rules.split_find {
+            // E19: `X.split('<c>').find(|p| COND)` ==> `{ let mut __vx_found = None; for __vx_item in vx_split_char(&X, '<c>') {
+            //          if __vx_found.is_none() { let p = &__vx_item; if COND { __vx_found = Some(__vx_item); } } } __vx_found }`
+            // (`find` evaluates the predicate on the items in order and stops at the first success; the guard `is_none()` stops
+            // evaluating it after the first success as well, so the predicate runs on exactly the same items; the items of the pure
+            // `split` are materialised by the trusted vx_split_char)
+            let mut repl: Option<Expr> = None;
+            if let Expr::MethodCall(c2) = &*e {
+                if c2.method == "find" && c2.args.len() == 1 {
+                    if let (Expr::Closure(cl), Expr::MethodCall(c1)) = (&c2.args[0], &*c2.receiver) {
+                        if c1.method == "split" && c1.args.len() == 1 && cl.inputs.len() == 1
+                            && matches!(&c1.args[0], Expr::Lit(syn::ExprLit { lit: syn::Lit::Char(_), .. })) {
+                            let recv = &c1.receiver;
+                            let sep = &c1.args[0];
+                            let pat = match &cl.inputs[0] { syn::Pat::Type(pt) => (*pt.pat).clone(), other => other.clone() };
+                            let body = &cl.body;
+                            repl = Some(parse_quote!({
+                                let mut __vx_found: Option<&str> = None;
+                                for __vx_item in vx_split_char(&#recv, #sep) {
+                                    if __vx_found.is_none() {
+                                        let #pat = &__vx_item;
+                                        if #body {
+                                            __vx_found = Some(__vx_item);
+                                        }
+                                    }
+                                }
+                                __vx_found
+                            }));
+                        }
+                    }
+                }
+            }
+            if let Some(n) = repl {
+                *e = n;
+                self.applied.bump("E19-split-find-as-loop");
+            }
+        }
         if let Some(elem_ty) = &self.rules.split_map_collect {
             // E18: `X.split(S).map(|p| BODY).collect::<Vec<_>>()` ==> `{ let mut __vx_v = Vec::new(); for p in vx_split_str(&X, S) { __vx_v.push(BODY); } __vx_v }`
             // (map/collect over the finite, pure split iterator is the loop that pushes each mapped item in order; vx_split_str is a
@@ -1033,6 +1071,7 @@ fn transform_fn(
         .map(|a| a.iter().filter_map(|x| x.as_str().map(String::from)).collect())
         .unwrap_or_default();
     let rules = Rules {
+        split_find: rule_list.iter().any(|r| r == "E19"),
         split_map_collect: rule_list.iter().find_map(|r| if r == "E18" { Some(String::new()) } else { r.strip_prefix("E18=").map(String::from) }),
         cloned_collect_fn: rule_list.iter().find_map(|r| r.strip_prefix("E17=").map(String::from)),
         enumerate_fn: rule_list.iter().find_map(|r| r.strip_prefix("E16=").map(String::from)),
